@@ -526,7 +526,7 @@ void mmd_export_link_opendocument(DString * out, const char * source, token * te
 		mmd_print_string_opendocument(out, link->url, false);
 		print_const("\"");
 	} else {
-		print_const("<a xlink:type=\"simple\" xlink:href=\"\"");
+		print_const("<text:a xlink:type=\"simple\" xlink:href=\"\"");
 	}
 
 	if (link->title && link->title[0] != '\0') {
